@@ -312,6 +312,8 @@ void HttpMessage::readBody()
 		}
 		else if (maxToRead <= 0) // input signalled but no byte counted: read one, which fails and ends the loop if the peer closed
 			maxToRead = 1;
+		else if (size > 0 && maxToRead > size) // bytes beyond Content-Length belong to the next (pipelined) request
+			maxToRead = size;
 		while (maxToRead > 0) {
 			bytesRead = _socket->read(buffer, min(maxToRead, (int)sizeof(buffer)));
 			if (bytesRead <= 0) {
